@@ -88,6 +88,18 @@ func prepareInputs(c *Case) (*os.File, error) {
 	return os.Open("stdin.txt")
 }
 
+func configMode(c *Case) interp.IOMode {
+	if c.ModeVia != "begin" {
+		switch c.Mode {
+		case "csv":
+			return interp.CSVMode
+		case "tsv":
+			return interp.TSVMode
+		}
+	}
+	return interp.DefaultMode
+}
+
 func parseEvents(out []byte) []string {
 	var evs []string
 	for _, l := range strings.Split(strings.TrimSuffix(string(out), "\n"), "\n") {
@@ -112,8 +124,8 @@ func runImpl(c *Case) (res implResult) {
 	defer in.Close()
 	funcs := map[string]any{"H": func(s string) string { return hx.HexS(s) }}
 	cfg := &interp.Config{Stdin: in, Args: c.Args, Argv0: "goawk", Funcs: funcs, NoArgVars: c.NoArgVars, Environ: []string{},
-		Error: new(strings.Builder)}
-	rr := runAwkCtx(c.P.awk(), cfg, &parser.ParserConfig{Funcs: funcs})
+		Error: new(strings.Builder), InputMode: configMode(c)}
+	rr := runAwkCtx(c.src(), cfg, &parser.ParserConfig{Funcs: funcs})
 	res.Raw = string(rr.Out)
 	if rr.Panic != nil {
 		res.Panic = fmt.Sprint(rr.Panic)
@@ -169,7 +181,8 @@ func specLine(s specResult) string {
 // which equation of the property the first difference falls under
 func diffOracle(want, got []string, wantSt, gotSt int, wantErr, gotErr bool) string {
 	cols := []string{"", "tag", "NR counts the main-input records taken", "FNR restarts at each file", "FILENAME names the file being read",
-		"$0 is the record / getline var leaves $0 alone", "NF goes with $0", "getline result", "variables (operand assignments, getline var)"}
+		"$0 is the record / getline var leaves $0 alone", "NF goes with $0", "getline result", "variables (operand assignments, getline var)",
+		"the fields go with $0 / getline var leaves the fields alone"}
 	if len(want) != len(got) {
 		return "which rules run on which records (patterns, ranges, next, nextfile, exit)"
 	}
@@ -239,6 +252,9 @@ func features(c *Case) string {
 			out = append(out, k)
 		}
 	}
+	if c.Mode != "" {
+		out = append(out, c.Mode+"-input")
+	}
 	if len(out) == 0 {
 		return "plain"
 	}
@@ -247,8 +263,8 @@ func features(c *Case) string {
 
 func detail(c *Case, extra map[string]any) map[string]any {
 	cj, _ := json.Marshal(c)
-	d := map[string]any{"program": c.P.awk(), "args": c.Args, "stdin_records": c.Stdin, "files": c.Files, "noargvars": c.NoArgVars,
-		"no_trailing_newline": c.NoNL, "model_line": c.wire(), "case_json": string(cj)}
+	d := map[string]any{"program": c.src(), "args": c.Args, "stdin_records": c.Stdin, "files": c.Files, "noargvars": c.NoArgVars,
+		"no_trailing_newline": c.NoNL, "input_mode": c.Mode, "input_mode_set_by": c.ModeVia, "model_line": c.wire(), "case_json": string(cj)}
 	for k, v := range extra {
 		d[k] = v
 	}
@@ -310,7 +326,7 @@ func evaluate(c *Case, impl implResult, model string, rep *hx.Report) {
 		return
 	}
 	if strings.HasPrefix(impl.Err, "parse error") {
-		rep.HarnessError("generated program does not parse: %s\n%s", impl.Err, c.P.awk())
+		rep.HarnessError("generated program does not parse: %s\n%s", impl.Err, c.src())
 		return
 	}
 	il := impl.line()
@@ -322,7 +338,7 @@ func evaluate(c *Case, impl implResult, model string, rep *hx.Report) {
 	case model == "fuel" || strings.HasPrefix(model, "driver-error"):
 		rep.HarnessError("model answered %q for %s", model, line)
 	case model != il:
-		rep.Mismatch(hx.Mismatch{Class: c.Family + ":" + features(c), Input: line, Impl: il, Model: model, Note: c.P.awk() + "\nerr=" + impl.Err})
+		rep.Mismatch(hx.Mismatch{Class: c.Family + ":" + features(c), Input: line, Impl: il, Model: model, Note: c.src() + "\nerr=" + impl.Err})
 	}
 	// search
 	rep.SearchEvals++
@@ -350,7 +366,7 @@ func evaluate(c *Case, impl implResult, model string, rep *hx.Report) {
 func main() {
 	o := hx.ParseFlags()
 	rep := hx.NewReport("C11", o.Seed, o.Tier)
-	rep.Rule = "systematic: every operand kind alone/in pairs/between files; 6 getline sources x 6 targets x {BEGIN, rule, END, function, while} x 3 operand lists; range /S/,/E/ over all 341 record sequences of length <= 4 over {plain,S,E,S E}; next/nextfile/exit x 5 nesting shapes x {rule, BEGIN, END, pattern}; exit-status grid; ARGV/ARGC edits. random: scripts by family (operands, range, getline, control, argv, mixed, hostile) over 3 files of <= 4 records, stdin, 4 commands; reused-interpreter histories: interp.New once, 2-3 Execute calls with none / ResetVars / ResetVars+ResetRand between (14 program shapes with one, two, three range rules, exit/nextfile/next/error while a range is open, getline bookkeeping, getline <file left open, ARGV/ARGC edits at run time, NR assigned) x 5 input sequences x 3 reset modes, plus random programs with fresh inputs per run), every run compared with the model's script_history and the fresh-run reference; distinct = distinct model request; non-trivial = the implementation produced at least one trace or print event"
+	rep.Rule = "systematic: every operand kind alone/in pairs/between files; 6 getline sources x 6 targets x {BEGIN, rule, END, function, while} x 3 operand lists; range /S/,/E/ over all 341 record sequences of length <= 4 over {plain,S,E,S E}; next/nextfile/exit x 5 nesting shapes x {rule, BEGIN, END, pattern}; exit-status grid; ARGV/ARGC edits. random: scripts by family (operands, range, getline, control, argv, mixed, hostile) over 3 files of <= 4 records, stdin, 4 commands; reused-interpreter histories: interp.New once, 2-3 Execute calls with none / ResetVars / ResetVars+ResetRand between (14 program shapes with one, two, three range rules, exit/nextfile/next/error while a range is open, getline bookkeeping, getline <file left open, ARGV/ARGC edits at run time, NR assigned) x 5 input sequences x 3 reset modes, plus random programs with fresh inputs per run), every run compared with the model's script_history and the fresh-run reference; input mode default / CSV / TSV (Config.InputMode or INPUTMODE assigned in BEGIN) as a dimension of every random case and history run, and systematically x getline source (main, file, the stdin file, command) x target (global, array element, function local, $0, $2) x {a field was / was not used before the getline} x {rule, pattern rule, range rule, END}; every trace shows $0, NF, all fields, NR, FNR, FILENAME, the getline result and the variables; distinct = distinct model request; non-trivial = the implementation produced at least one trace or print event"
 	outPath, _ := filepath.Abs(o.Out)
 	modelrun := o.ModelRun
 	if modelrun != "" {
@@ -397,12 +413,12 @@ func main() {
 	lines := make([]string, len(cases))
 	for i, c := range cases {
 		if specRun(c).Runaway {
-			fmt.Fprintln(os.Stderr, "RUNAWAY:\n"+c.P.awk())
+			fmt.Fprintln(os.Stderr, "RUNAWAY:\n"+c.src())
 			rep.HarnessError("generated script does not terminate: %s", c.wire())
 			c.P = Prog{}
 		}
 		if os.Getenv("C11_DEBUG") != "" {
-			os.WriteFile("/tmp/c11_last.awk", []byte(fmt.Sprintf("# case %d args %q stdin %q files %v\n%s", i, c.Args, c.Stdin, c.Files, c.P.awk())), 0o644)
+			os.WriteFile("/tmp/c11_last.awk", []byte(fmt.Sprintf("# case %d args %q stdin %q files %v\n%s", i, c.Args, c.Stdin, c.Files, c.src())), 0o644)
 		}
 		impls[i] = runImpl(c)
 		lines[i] = c.wire()
@@ -421,7 +437,7 @@ func main() {
 		}
 		evaluate(c, impls[i], m, rep)
 		if i%499 == 0 {
-			rep.Sample(map[string]any{"program": c.P.awk(), "args": c.Args, "impl": impls[i].line()})
+			rep.Sample(map[string]any{"program": c.src(), "args": c.Args, "impl": impls[i].line()})
 		}
 	}
 	runHistories(rep, o, r, modelrun)
@@ -457,7 +473,7 @@ func doReplay(path, modelrun string) int {
 	}
 	impl := runImpl(&c)
 	spec := specRun(&c)
-	fmt.Println("program:\n" + c.P.awk())
+	fmt.Println("program:\n" + c.src())
 	fmt.Printf("args: %q\nstdin: %q\n", c.Args, c.Stdin)
 	fmt.Println("expected:", specLine(spec))
 	fmt.Println("got:     ", impl.line(), impl.Err)
